@@ -167,14 +167,17 @@ def generate(rng, n, tier="quick"):
                     if form == "sub" and not pos_src and not hash_src:
                         # a bare `(name)` is a path subexpression: the call form needs an argument
                         tpl = "{{{pr (%s)}}}" % name
-                    cfg = {"escape": "html", "strict": strict,
+                    # (the escape function of the registry is the default one or a user function that changes EVERY text: what an
+                    # expression writes is the function's image of the result's text, whatever characters that text is made of)
+                    escn = "mark" if k % 3 == 1 else "html"
+                    cfg = {"escape": escn, "strict": strict,
                            "helpers": [{"name": "pr", "kind": "probe"}, {"name": name, "kind": "macro", "sig": sig_json(name)}]
                                       + ([{"name": "m_ident", "kind": "macro", "sig": sig_json("m_ident")}] if name != "m_ident" else [])}
                     case = session(cfg, [], {"api": "render_template", "src": tpl}, {"dv": "data"})
                     case["id"] = "%s-%05d" % (ID, k)
                     k += 1
                     out.append((case, {"expect": [exp[0], exp[1] if exp[0] == "err" else enc(exp[1]), exp[2] if exp[0] == "err" else None],
-                                       "plain": None if exp[0] == "err" else plain(exp[1]), "text": None if exp[0] == "err" else text_of(exp[1]), "form": form, "tpl": tpl, "strict": strict}))
+                                       "plain": None if exp[0] == "err" else plain(exp[1]), "text": None if exp[0] == "err" else text_of(exp[1]), "form": form, "tpl": tpl, "strict": strict, "esc": escn}))
     # directed: the result of a macro-defined helper is written like any value – escaped in {{ }}, as it is in {{{ }}} / {{& }} –
     # also when an argument comes from a subexpression calling a WRITING helper (whose output is captured), a value helper
     # or another macro helper
@@ -205,8 +208,8 @@ def oracle(case, meta, impl):
     if l.get("r") != "ok":
         return ["%s: expected a result, got %s %s %s" % (meta["tpl"], l.get("r"), l.get("reason"), l.get("args"))]
     if meta["form"] == "expr":
-        from ..ref import html_escape
-        exp = html_escape(meta["text"])
+        from .common import escape_of
+        exp = escape_of(meta.get("esc", "html"))(meta["text"])
         return [] if l["out"] == exp else ["%s: written %r, expected the escaped text %r" % (meta["tpl"], l["out"], exp)]
     try:
         d = json.loads(l["out"])
